@@ -80,12 +80,26 @@ class Line(GeoBody):
 
     def __hash__(self):
         """Return hash of a Line"""
+        # Equal lines must have equal hashes whatever support point and
+        # direction vector they were built from: hash the direction with
+        # unit length and a fixed sign, and the moment sv x dv, which is
+        # the same for every support point on the line.
+        d = self.dv.normalized()
+        for c in d:
+            if abs(c) > get_eps():
+                if c < 0:
+                    d = -d
+                break
+        m = self.sv.cross(d)
         return hash(
             (
                 "Line",
-                round(self.dv[0], SIG_FIGURES),
-                round(self.dv[1], SIG_FIGURES),
-                round(self.dv[0] * self.sv[1] - self.dv[1] * self.sv[0], SIG_FIGURES),
+                round(d[0], SIG_FIGURES),
+                round(d[1], SIG_FIGURES),
+                round(d[2], SIG_FIGURES),
+                round(m[0], SIG_FIGURES),
+                round(m[1], SIG_FIGURES),
+                round(m[2], SIG_FIGURES),
             )
         )
 
